@@ -37,6 +37,9 @@ def oracle(ctx, cfg, rr):
             if rec['op'] == 'm' and rec['mem']['total'] != rec['actual_total']:
                 return ctx.fail(f'rank {r}: memory_usage() total {rec["mem"]["total"]} != {rec["actual_total"]} bytes held',
                                 case, 'memory')
+            if rec['op'] == 'm' and rec.get('communicator_extra', 0):
+                return ctx.fail(f'rank {r}: the communicator keeps {rec["communicator_extra"]} bytes of tensors alive (buckets, fused buffers, '
+                                f'futures) that memory_usage() = {rec["mem"]["total"]} does not report', case, 'memory-communicator')
     # nothing K-FAC keeps alive hides from memory_usage(): module-level state of the kfac package (caches, memo tables) holds
     # no tensors
     hidden = module_level_tensor_bytes()
@@ -161,7 +164,46 @@ def gen_cfgs(ctx, n):
     return cfgs
 
 
+def graph_stream(ctx):
+    """backward passes that record a graph (loss.backward(create_graph=True): gradient penalties, meta-learning): what the
+    layers keep are plain tensors — no autograd history whose saved tensors would stay alive, unreported, from step to step"""
+    import torch
+    from kfac.preconditioner import KFACPreconditioner
+    rng = ctx.rng
+    for hook in (True, False):
+        for method in ('eigen', 'inverse'):
+            torch.manual_seed(rng.randrange(10**6))
+            m = torch.nn.Sequential(torch.nn.Linear(4, 3), torch.nn.Tanh(), torch.nn.Linear(3, 2))
+            p = KFACPreconditioner(m, compute_method=method, update_factors_in_hook=hook)
+            case = {'stream': 'create_graph', 'method': method, 'update_factors_in_hook': hook}
+            try:
+                for step in range(3):
+                    m.zero_grad()
+                    m(torch.randn(6, 4)).pow(2).mean().backward(create_graph=True)
+                    bad = None
+                    for name, l in p._layers.values():
+                        for k_, v_ in vars(l).items():
+                            if isinstance(v_, torch.Tensor) and (v_.grad_fn is not None or v_.requires_grad):
+                                bad = (name, k_)
+                    p.step()
+                    for name, l in p._layers.values():
+                        for k_, v_ in vars(l).items():
+                            if isinstance(v_, torch.Tensor) and (v_.grad_fn is not None or v_.requires_grad):
+                                bad = (name, k_)
+                    if bad:
+                        ctx.fail(f'step {step}: layer {bad[0]} holds {bad[1]} with autograd history (its graph and saved tensors stay alive, '
+                                 'invisible to memory_usage())', case, 'memory-autograd-graph')
+                        break
+                    for q in m.parameters():
+                        q.grad = q.grad.detach()
+            except Exception as e:  # noqa: BLE001
+                ctx.fail(f'create_graph iteration raised {type(e).__name__}: {e}', case, 'graph-raised')
+            ctx.evaluations += 1
+            ctx.count('create_graph')
+
+
 def run(ctx):
+    graph_stream(ctx)
     kfacsim.run_batch(ctx, gen_cfgs(ctx, ctx.budget(80, 800)), STREAMS, oracles=(oracle,))
 
 
